@@ -611,7 +611,7 @@ ARITH = {
     "sub": _int_or_real(lambda a, b: a - b, lambda a, b: a - b),
     "mul": _int_or_real(lambda a, b: a * b, lambda a, b: a * b),
     "div": _int_or_real(_pydiv, _div_real),
-    "rem": _int_or_real(_pyrem, None),
+    "rem": _int_or_real(_pyrem, lambda a, b: S.uf("rem", (a, b))),
     "max": _int_or_real(max, S.pmax),
     "min": _int_or_real(min, S.pmin),
     "neg": lambda ins, params: [Sym(_ew(lambda x: -x, ins[0].a), "real")] if ins[0].kind == "real"
@@ -701,7 +701,7 @@ def _cum(fold):
 ARITH["cumprod"] = _cum(lambda a, b: a * b)
 ARITH["cummax"] = _cum(S.pmax)
 ARITH["cummin"] = _cum(S.pmin)
-for _n in ("erfc", "sinh", "cosh", "tan", "atan", "asin", "acos", "asinh", "acosh", "atanh", "cbrt", "lgamma", "digamma"):
+for _n in ("floor", "ceil", "round", "erfc", "sinh", "cosh", "tan", "atan", "asin", "acos", "asinh", "acosh", "atanh", "cbrt", "lgamma", "digamma"):
     ARITH[_n] = _uf1(_n)
 
 
